@@ -65,6 +65,8 @@ pub fn run(ctx: &Ctx, rep: &mut Report) {
         // five accounts, and the target contract itself (an operator may be the contract it calls)
         let mut cands: Vec<Address> = (0..5).map(|_| u.principal()).collect();
         cands.push(target.clone());
+        // and the contract's first owner (an owner may appoint itself)
+        cands.push(owner.clone());
         let stranger = u.principal();
         let mut members: BTreeSet<usize> = BTreeSet::new();
         let mut ever: BTreeSet<usize> = BTreeSet::new();
@@ -104,7 +106,8 @@ pub fn run(ctx: &Ctx, rep: &mut Report) {
                             _ => Auth::Nobody,
                         },
                     };
-                    let by_owner = auth_class == "owner";
+                    // the candidate may be the current owner itself
+                    let by_owner = auth_class == "owner" || (auth_class == "candidate" && cand == owner);
                     let want = by_owner && (adding != present);
                     let class = if !by_owner {
                         if adding { "add-not-owner" } else { "remove-not-owner" }
@@ -170,6 +173,8 @@ pub fn run(ctx: &Ctx, rep: &mut Report) {
                     let is_member = members.contains(&ci);
                     let was_member = ever.contains(&ci);
                     let auth_class = *rng.pick(&["own", "own", "own", "own", "nobody", "stranger", "owner", "own-other-arguments"]);
+                    // the owner's authorisation is the member's own when the member is the owner
+                    let auth_class = if auth_class == "owner" && cand == owner { "own" } else { auth_class };
                     let auth = match auth_class {
                         "own" | "own-other-arguments" => Auth::Only(vec![cand.clone()]),
                         "nobody" => Auth::Nobody,
@@ -289,7 +294,9 @@ pub fn run(ctx: &Ctx, rep: &mut Report) {
             }
             // membership of every candidate (and of owner / stranger)
             let mut all: Vec<(Address, bool)> = cands.iter().enumerate().map(|(i, a)| (a.clone(), members.contains(&i))).collect();
-            all.push((owner.clone(), false));
+            if !cands.contains(&owner) {
+                all.push((owner.clone(), false));
+            }
             all.push((stranger.clone(), false));
             for (a, want) in all {
                 let oc = ops_c.clone();
